@@ -405,6 +405,11 @@ func runC16(c *fw.Ctx) {
 		t3 := append(append([]c16Tok(nil), toks...), second...)
 		c16Check(c, e, fmt.Sprintf("two-%d", i), t3, c16Join(r, t3), "two-expressions")
 	}
+	// REPL sessions (c16repl.go)
+	rs := c.Rand("repl-sessions")
+	for i := 0; i < c.PerShard(c.Pick(480, 8000)); i++ {
+		c16Session(c, rs, fmt.Sprintf("repl-%d", i))
+	}
 }
 
 func init() {
@@ -418,6 +423,8 @@ func init() {
 				m.Floor("completable."+cl, 100)
 			}
 			m.Floor("classifier_agreement", 1000)
+			m.Floor("repl_entries_with_comments_on_inner_lines", 100)
+			m.Floor("repl_results_matching", 500)
 			m.Extra["categories"] = m.CountsWithPrefix("category.")
 			m.Extra["completable_prefixes_per_innermost_closer"] = m.CountsWithPrefix("completable.")
 			m.Extra["text_kinds"] = m.CountsWithPrefix("kind.")
